@@ -249,6 +249,16 @@ func (m *model) proposalForce(passed bool, incoming uint64, execTime time.Time, 
 	if !inWindow {
 		m.count("converse_exec_time_outside_window_accepted")
 	}
+	if g == nil || g.status != "active" {
+		// a forced transition skips the hand-over signature, not the key generation: the statement lets the signing group
+		// change only to a group that finished key generation
+		st := "non-existent"
+		if g != nil {
+			st = g.status
+		}
+		m.fail("C18/forced-to-unfinished-group", "MsgForceTransitionGroup accepted at height %d although incoming group %d did not finish key generation (status: %s)", h, incoming, st)
+		return ""
+	}
 	rec := &trRecord{Incoming: incoming, Forced: true, ExecTime: execTime, PropH: h, NoCurrent: m.cur == 0, ReachedWE: true, Outcome: "open"}
 	m.records = append(m.records, rec)
 	m.tr = &mTransition{status: stWaitingExec, incoming: incoming, current: m.cur, execTime: execTime, forced: true, rec: rec}
